@@ -48,6 +48,9 @@ pub enum Op {
     StartReadOnly,
     /// `import_namespace` while the document is open and subscribed: `write` upgrades
     Import { write: bool },
+    /// the last handle of the document is released and it is opened again; every subscriber that has not
+    /// unsubscribed subscribes again *with the channel it already has*
+    Reopen,
 }
 
 pub struct C12 {
@@ -150,6 +153,13 @@ impl Property for C12 {
                 Op::Burst { a: 0, n: 6, cap: 1, ts: 30, abandon: false, dead_after: true },
                 Op::Local { a: 1, key: b"after".to_vec(), c: 0, ts: 40 },
             ]),
+            ("rejoin-with-the-same-channel-after-the-last-close".into(), vec![
+                Op::Subscribe { s: 0 }, Op::Subscribe { s: 1 },
+                Op::Local { a: 0, key: b"a".to_vec(), c: 0, ts: 5 },
+                Op::Reopen,
+                Op::Local { a: 0, key: b"b".to_vec(), c: 1, ts: 9 },
+                Op::Remote { a: 1, key: b"c".to_vec(), c: Some(0), ts: 5, peer: 0, status: 0, bad: false },
+            ]),
             ("policy-decides-download-flag".into(), vec![
                 Op::Subscribe { s: 0 },
                 Op::Policy { pol: Pol { everything: false, filters: vec![(false, b"a".to_vec())] } },
@@ -210,6 +220,7 @@ impl Property for C12 {
                     }
                 }
                 18 if read_only || rng.chance(1, 3) => Op::Import { write: rng.chance(2, 3) },
+                18 if rng.chance(1, 2) => Op::Reopen,
                 19 if rng.chance(1, 2) => Op::Burst { a, n: rng.range(2, 7), cap: rng.range(1, 3), ts: ts + 100, abandon: rng.chance(1, 2), dead_after: rng.chance(1, 2) },
                 _ => Op::Policy { pol: gen_pol(rng) },
             });
@@ -296,6 +307,22 @@ impl Property for C12 {
                         }
                     }
                     Op::StartReadOnly => {}
+                    Op::Reopen => {
+                        for s in 0..4 {
+                            if let (true, Some(id)) = (subscribed[s], ids[s]) {
+                                // closing the replica forgets its subscribers
+                                lines.push(Line::model(format!("eunsub 1 {id}"), "ok"));
+                            }
+                        }
+                        handle.close(nsid).await?;
+                        handle.open(nsid, OpenOpts::default().sync()).await?;
+                        for s in 0..4 {
+                            if let (true, Some((tx, _)), Some(id)) = (subscribed[s], &slots[s], ids[s]) {
+                                handle.subscribe(nsid, tx.clone()).await?;
+                                lines.push(Line::model(format!("esub 1 {id}"), "ok"));
+                            }
+                        }
+                    }
                     Op::Import { write } => {
                         let cap = if *write { iroh_docs::sync::Capability::Write(ns.clone()) } else { iroh_docs::sync::Capability::Read(nsid) };
                         let (kind, raw) = cap.raw();
